@@ -227,6 +227,32 @@ impl<T> Slab<T> {
     pub fn is_empty(&self) -> (r: bool)
         ensures r <==> self@.dom() =~= Set::<usize>::empty(),
     { unimplemented!() }
+
+    #[verifier::external_body]
+    pub fn len(&self) -> (r: usize)
+        ensures self@.dom().finite(), r == self@.dom().len(),
+    { unimplemented!() }
+
+
+    #[verifier::external_body]
+    pub fn contains(&self, key: usize) -> (r: bool)
+        ensures r == self@.dom().contains(key),
+    { unimplemented!() }
+
+    #[verifier::external_body]
+    pub fn get(&self, key: usize) -> (r: Option<&T>)
+        ensures
+            r is Some <==> self@.dom().contains(key),
+            r is Some ==> *(r->0) == self@[key],
+    { unimplemented!() }
+
+
+    // weakest sound reading: retain only removes entries (it hands each value to the closure
+    // mutably, so nothing is promised about the values that stay)
+    #[verifier::external_body]
+    pub fn retain<F: FnMut(usize, &mut T) -> bool>(&mut self, f: F)
+        ensures forall|k: usize| #![auto] final(self)@.dom().contains(k) ==> old(self)@.dom().contains(k),
+    { unimplemented!() }
 }
 
 /// X4: std::sync::Mutex seen sequentially is the protected value; `lock().expect(..)` /
@@ -917,6 +943,8 @@ pub mod command_m {
                 (r matches Poll::Ready(None) ==> final(w).c_events.len() == 0 && final(w).c_effects.len() == 0 && final(self).tasks@.dom() =~= Set::<usize>::empty()), // [C01/poll_next/end-of-stream-only-when-nothing-is-pending-and-no-task-is-left]
                 (r is Pending ==> final(w).c_events.len() == 0 && final(w).c_effects.len() == 0 && !(final(self).tasks@.dom() =~= Set::<usize>::empty())), // [C01/poll_next/pending-only-when-both-queues-are-empty-and-a-task-remains]
                 (r is Pending && !old(w).c_aborted ==> final(w).c_spawn == 0 && final(w).c_ready == 0), // [C01/poll_next/pending-only-when-settled]
+                (r is Pending ==> !final(w).c_aborted), // [C01+C13/poll_next/an-aborted-command-never-stays-pending-in-its-host]
+                (final(w).c_aborted && !(r matches Poll::Ready(Some(_))) ==> final(self).tasks@.dom() =~= Set::<usize>::empty()), // [C13/poll_next/an-aborted-command-with-no-output-left-holds-no-task]
 //@rule X12.pin-erasure 1 s/self\.deref_mut\(\)\.run_until_settled\(\)/self.run_until_settled(Tracked(w))/
 //@rule X6.world * s/\.try_recv\(\)/.try_recv(Tracked(w))/
 //@rule X6.world * s/self\.is_done\(\)/self.is_done(Tracked(w))/
